@@ -457,19 +457,26 @@ func (mbox *MailboxView) staticNumSet(numSet imap.NumSet) imap.NumSet {
 		return mbox.searchRes
 	}
 
+	// Resolving "*" can turn a range around ("9:*" with two messages is
+	// "2:9"), so the ranges are inserted into a new set to keep it sorted, as
+	// NumSet.Contains requires.
 	switch numSet := numSet.(type) {
 	case imap.SeqSet:
 		max := uint32(len(mbox.l))
-		for i := range numSet {
-			r := &numSet[i]
+		var static imap.SeqSet
+		for _, r := range numSet {
 			staticNumRange(&r.Start, &r.Stop, max)
+			static.AddRange(r.Start, r.Stop)
 		}
+		return static
 	case imap.UIDSet:
 		max := uint32(mbox.uidNext) - 1
-		for i := range numSet {
-			r := &numSet[i]
+		var static imap.UIDSet
+		for _, r := range numSet {
 			staticNumRange((*uint32)(&r.Start), (*uint32)(&r.Stop), max)
+			static.AddRange(r.Start, r.Stop)
 		}
+		return static
 	}
 
 	return numSet
